@@ -10,6 +10,9 @@ package main
 //	  roles  []string set index                           members link collection B.members <-> A.groups
 //	  owner  *string  nullable fk index -> B.things
 //	  dep    *string  nullable fk constraint -> B, cascade delete (deleting the owner deletes its dependants)
+//	  boss   *string  nullable fk constraint -> A itself, cascade delete (deleting an entity deletes its transitive
+//	                  referrers; self references and longer cycles terminate since fix bda5470); registered FIRST, so the
+//	                  cascade runs before the entity's own index entries are removed
 //	  groups []string link collection A.groups <-> B.members
 //	  rcB             ref-counted link collection A.rcB <-> B.rcA (IncrementLinkCount / DecrementLinkCount / SetLinkCount)
 //	store A1: plain child of A (entity path ["ext1"]): code string, own unique index (non-nullable),
@@ -17,10 +20,11 @@ package main
 //
 // Case line:   h <vals> <tx>|<tx>|...        (same framing as C03)
 //
-//	ca:<id>:<name>:<alias>:<roles>:<owner>:<dep>:<groups>       A.Create
-//	ua:<id>:<name>:<alias>:<roles>:<owner>:<dep>:<groups>:<chk> A.Update, <chk> = * | subset of "narodg" | 0
+//	ca:<id>:<name>:<alias>:<roles>:<owner>:<dep>:<groups>[:<boss>]       A.Create
+//	ua:<id>:<name>:<alias>:<roles>:<owner>:<dep>:<groups>:<chk>[:<boss>] A.Update, <chk> = * | subset of "narodgb" | 0
 //	da:<id>                                                     A.DeleteById
-//	cc:<id>:<name>:<alias>:<roles>:<owner>:<dep>:<groups>:<code>:<pals>   A1.Create (through the child store)
+//	cc:<id>:<name>:<alias>:<roles>:<owner>:<dep>:<groups>:<code>:<pals>[:<boss>]   A1.Create (through the child store)
+//	(the trailing <boss> is optional: absent = nil)
 //	ri:<a>:<b>  rd:<a>:<b>  rs:<a>:<b>:<n>                      Increment / Decrement / SetLinkCount on A.rcB
 //	dc:<id>                                                     A1.DeleteById (delegates to the parent)
 //	cb:<id>:<label>      ub:<id>:<label>:<chk> (* | l | 0)      db:<id>         B.Create / Update / DeleteById
@@ -53,6 +57,7 @@ type c06Thing struct {
 	Roles  []string
 	Owner  *string
 	Dep    *string
+	Boss   *string
 	Groups []string
 }
 
@@ -69,6 +74,7 @@ func (c06ThingStrategy) FillEntity(e *c06Thing, b *boltz.TypedBucket) {
 	e.Roles = b.GetStringList("roles")
 	e.Owner = b.GetString("owner")
 	e.Dep = b.GetString("dep")
+	e.Boss = b.GetString("boss")
 	e.Groups = b.GetStringList("groups")
 }
 func (c06ThingStrategy) PersistEntity(e *c06Thing, ctx *boltz.PersistContext) {
@@ -77,6 +83,7 @@ func (c06ThingStrategy) PersistEntity(e *c06Thing, ctx *boltz.PersistContext) {
 	ctx.SetStringList("roles", e.Roles)
 	ctx.SetStringP("owner", e.Owner)
 	ctx.SetStringP("dep", e.Dep)
+	ctx.SetStringP("boss", e.Boss)
 	ctx.SetLinkedIds("groups", append([]string{}, e.Groups...))
 }
 
@@ -166,6 +173,9 @@ func c06Wire() *c06Stores {
 	symMembers := s.owners.AddFkSetSymbol("members", s.things)
 
 	s.things.AddIdSymbol("id", ast.NodeTypeString)
+	// the self reference comes first: fk constraint, then (same store) its cascading delete constraint
+	symBoss := s.things.AddFkSymbol("boss", s.things)
+	s.things.AddFkConstraint(symBoss, true, boltz.CascadeDelete)
 	symName := s.things.AddSymbol("name", ast.NodeTypeString)
 	s.idxName = s.things.AddUniqueIndex(symName)
 	symAlias := s.things.AddSymbol("alias", ast.NodeTypeString)
@@ -203,6 +213,7 @@ type c06Op struct {
 	roles  []string
 	owner  *string
 	dep    *string
+	boss   *string
 	groups []string
 	code   string
 	pals   []string
@@ -223,12 +234,18 @@ func c06ParseOp(s string) c06Op {
 		op.owner = csParseOpt(f[5])
 		op.dep = csParseOpt(f[6])
 		op.groups = csParseList(f[7])
+		nf := 8
 		if op.kind == "ua" {
 			op.chk = f[8]
+			nf = 9
 		}
 		if op.kind == "cc" {
 			op.code = fromWire(f[8])
 			op.pals = csParseList(f[9])
+			nf = 10
+		}
+		if len(f) > nf {
+			op.boss = csParseOpt(f[nf])
 		}
 	case "cb":
 		op.label = csParseOpt(f[2])
@@ -249,13 +266,17 @@ func c06FmtOp(op c06Op) string {
 		return fmt.Sprintf("%s:%s:%s:%s:%s:%s:%s:%s", op.kind, toWire(op.id), toWire(op.name), csOpt(op.alias), csList(op.roles),
 			csOpt(op.owner), csOpt(op.dep), csList(op.groups))
 	}
+	boss := ""
+	if op.boss != nil {
+		boss = ":" + csOpt(op.boss)
+	}
 	switch op.kind {
 	case "ca":
-		return base()
+		return base() + boss
 	case "ua":
-		return base() + ":" + op.chk
+		return base() + ":" + op.chk + boss
 	case "cc":
-		return base() + ":" + toWire(op.code) + ":" + csList(op.pals)
+		return base() + ":" + toWire(op.code) + ":" + csList(op.pals) + boss
 	case "cb":
 		return fmt.Sprintf("cb:%s:%s", toWire(op.id), csOpt(op.label))
 	case "ub":
@@ -281,12 +302,12 @@ func c06Checker(chk string, names map[byte]string) boltz.FieldChecker {
 	return m
 }
 
-var c06AFields = map[byte]string{'n': "name", 'a': "alias", 'r': "roles", 'o': "owner", 'd': "dep", 'g': "groups"}
+var c06AFields = map[byte]string{'n': "name", 'a': "alias", 'r': "roles", 'o': "owner", 'd': "dep", 'g': "groups", 'b': "boss"}
 var c06BFields = map[byte]string{'l': "label"}
 
 func (s *c06Stores) thing(op c06Op) *c06Thing {
 	return &c06Thing{Id: op.id, Name: op.name, Alias: op.alias, Roles: append([]string{}, op.roles...), Owner: op.owner,
-		Dep: op.dep, Groups: append([]string{}, op.groups...)}
+		Dep: op.dep, Boss: op.boss, Groups: append([]string{}, op.groups...)}
 }
 
 func (s *c06Stores) apply(ctx boltz.MutateContext, op c06Op) error {
@@ -421,7 +442,7 @@ func c06Exec(line string) string {
 
 // ---------------------------------------------------------------------------------- generator
 
-var c06AIds = []string{"a", "b", "c", "d"}
+var c06AIds = []string{"a", "b", "c", "d", "e"}
 var c06BIds = []string{"p", "q", "r"}
 var c06Vals = []string{"x", "y", "zq"}
 var c06RoleVals = []string{"m", "nq", "x"}
@@ -470,6 +491,9 @@ func (sh *c06Shadow) apply(op c06Op) bool {
 			return false
 		}
 		if e.dep != nil && *e.dep != "" && !sh.b[*e.dep] {
+			return false
+		}
+		if e.boss != nil && *e.boss != "" && *e.boss != e.id && sh.a[*e.boss] == nil {
 			return false
 		}
 		for _, g := range e.groups {
@@ -522,6 +546,9 @@ func (sh *c06Shadow) apply(op c06Op) bool {
 		if all || strings.Contains(op.chk, "g") {
 			e.groups = op.groups
 		}
+		if all || strings.Contains(op.chk, "b") {
+			e.boss = op.boss
+		}
 		if !okRefs(&e) {
 			return false
 		}
@@ -531,7 +558,7 @@ func (sh *c06Shadow) apply(op c06Op) bool {
 		if sh.a[op.id] == nil {
 			return false
 		}
-		delete(sh.a, op.id)
+		sh.deleteA(op.id)
 		return true
 	case "cb":
 		if op.id == "" || sh.b[op.id] {
@@ -548,7 +575,7 @@ func (sh *c06Shadow) apply(op c06Op) bool {
 		delete(sh.b, op.id)
 		for aid, e := range sh.a {
 			if e.dep != nil && *e.dep == op.id {
-				delete(sh.a, aid) // cascade
+				sh.deleteA(aid) // cascade
 			}
 		}
 		for _, e := range sh.a {
@@ -567,6 +594,23 @@ func (sh *c06Shadow) apply(op c06Op) bool {
 	return false
 }
 
+// deleteA: the entity and, transitively, everything whose boss is deleted
+func (sh *c06Shadow) deleteA(id string) {
+	gone := map[string]bool{id: true}
+	for changed := true; changed; {
+		changed = false
+		for aid, e := range sh.a {
+			if !gone[aid] && e.boss != nil && gone[*e.boss] {
+				gone[aid] = true
+				changed = true
+			}
+		}
+	}
+	for aid := range gone {
+		delete(sh.a, aid)
+	}
+}
+
 func c06PickId(r *rng, ids []string, live func(string) bool, wantLive bool) string {
 	var pool []string
 	for _, id := range ids {
@@ -580,7 +624,7 @@ func c06PickId(r *rng, ids []string, live func(string) bool, wantLive bool) stri
 	return pick(r, pool)
 }
 
-func (sh *c06Shadow) genAVals(r *rng, op *c06Op) {
+func (sh *c06Shadow) genAVals(r *rng, op *c06Op, aIds []string) {
 	// name: mostly free, a quarter of the time deliberately taken
 	wantFree := !r.chance(1, 5)
 	var pool []string
@@ -624,6 +668,20 @@ func (sh *c06Shadow) genAVals(r *rng, op *c06Op) {
 		e := ""
 		op.dep = &e
 	}
+	// boss: half of the entities have one; mostly an existing entity (chains, and through updates cycles), sometimes
+	// the entity itself, rarely a missing one or the empty string
+	op.boss = nil
+	switch k := r.intn(12); {
+	case k < 5:
+		v := c06PickId(r, aIds, func(id string) bool { return sh.a[id] != nil && id != op.id }, !r.chance(1, 25))
+		op.boss = &v
+	case k == 5:
+		v := op.id
+		op.boss = &v
+	case k == 6 && r.chance(1, 3):
+		e := ""
+		op.boss = &e
+	}
 	op.groups = nil
 	for i, n := 0, r.intn(3); i < n; i++ {
 		op.groups = append(op.groups, bpick())
@@ -636,7 +694,7 @@ func (sh *c06Shadow) genAVals(r *rng, op *c06Op) {
 	}
 }
 
-var c06AChks = []string{"*", "*", "*", "n", "a", "r", "o", "d", "g", "no", "rg", "od", "dg", "nar", "narodg", "0", "ao"}
+var c06AChks = []string{"*", "*", "*", "n", "a", "r", "o", "d", "g", "b", "b", "no", "rg", "od", "dg", "nb", "nar", "narodgb", "0", "ao"}
 
 func c06GenOp(r *rng, sh *c06Shadow, aIds []string) c06Op {
 	liveA := func(id string) bool { return sh.a[id] != nil }
@@ -661,7 +719,7 @@ func c06GenOp(r *rng, sh *c06Shadow, aIds []string) c06Op {
 				op.id = c06PickId(r, aIds, liveA, true)
 			}
 		}
-		sh.genAVals(r, &op)
+		sh.genAVals(r, &op, aIds)
 		return op
 	case k < 30: // ref-counted link churn: counts of 2 and more are the interesting ones
 		op := c06Op{kind: "ri", id: c06PickId(r, aIds, liveA, true), other: c06PickId(r, c06BIds, liveB, !r.chance(1, 12))}
@@ -675,7 +733,7 @@ func c06GenOp(r *rng, sh *c06Shadow, aIds []string) c06Op {
 		return op
 	case k < 52: // update / patch A
 		op := c06Op{kind: "ua", id: c06PickId(r, aIds, liveA, true), chk: pick(r, c06AChks)}
-		sh.genAVals(r, &op)
+		sh.genAVals(r, &op, aIds)
 		if old := sh.a[op.id]; old != nil && r.chance(1, 5) {
 			op.name, op.owner = old.name, old.owner
 		}
@@ -705,7 +763,7 @@ func c06GenOp(r *rng, sh *c06Shadow, aIds []string) c06Op {
 }
 
 func c06GenHistory(r *rng, nTx int) string {
-	aIds := c06AIds[:3+r.intn(2)]
+	aIds := c06AIds[:3+r.intn(3)]
 	sh := &c06Shadow{a: map[string]*c06Op{}, b: map[string]bool{}}
 	var txs []string
 	for t := 0; t < nTx; t++ {
